@@ -903,7 +903,7 @@ def negative_variants(split, rng, limit=None):
                 reason = "transitive" if any(owner in split.imports[d] for d in direct) else "not_imported"
             else:
                 continue
-            probe, code = probe_for(it)
+            probe, code = probe_for(it, rng.randrange(5))
             if probe is None:
                 continue
             out.append({"module": m, "item": it.name, "kind": it.kind, "reason": reason,
@@ -930,17 +930,30 @@ def negative_variants(split, rng, limit=None):
     return out
 
 
-def probe_for(it):
+def probe_for(it, variant=0):
+    """A reference to `it` from outside, and the code its rejection carries.
+    `variant` picks the position of the reference: a leak may exist for one
+    kind of position only (a type in a size-of, an array length, a member
+    type, a constant's initialiser ...)."""
     if it.kind == "fn":
         sig = it.sig
+        call = None
         if sig[0] in ("ii_i", "mut_pair"):
-            return "fn zz_probe() -> i32\n{\n\treturn: %s(1, 2)\n}\n" % it.name, 401
-        if sig[0] == "i_i":
-            return "fn zz_probe() -> i32\n{\n\treturn: %s(1)\n}\n" % it.name, 401
+            call = "%s(1, 2)" % it.name
+        elif sig[0] == "i_i":
+            call = "%s(1)" % it.name
+        elif sig[0] == "flag":
+            call = "%s(true, 2)" % it.name
+        if call:
+            if variant == 1:
+                return "fn zz_probe() -> i32\n{\n\tvar x = 1 + %s;\n\treturn: x\n}\n" % call, 401
+            if variant == 2:
+                return "fn zz_probe() -> i32\n{\n\tvar a: [3]i32 = [1, %s, 3];\n\treturn: a[1]\n}\n" % call, 401
+            if variant == 3:
+                return "fn zz_probe()\n{\n\t%s;\n}\n" % call, 401
+            return "fn zz_probe() -> i32\n{\n\treturn: %s\n}\n" % call, 401
         if sig[0] == "print_v":
             return "fn zz_probe()\n{\n\t%s(1);\n}\n" % it.name, 401
-        if sig[0] == "flag":
-            return "fn zz_probe() -> i32\n{\n\treturn: %s(true, 2)\n}\n" % it.name, 401
         if sig[0] == "ptr_v":
             return "fn zz_probe()\n{\n\tvar t: i32 = 1;\n\t%s(&t, 2);\n}\n" % it.name, 401
         if sig[0] == "slice_i":
@@ -954,9 +967,27 @@ def probe_for(it):
             return None, None
         ty = m.group(1).strip()
         if ty.startswith("["):
+            if variant in (1, 3):
+                return "fn zz_probe() -> usize\n{\n\treturn: |%s|\n}\n" % it.name, 402
             return "fn zz_probe() -> i32\n{\n\treturn: %s[0]\n}\n" % it.name, 402
+        if variant == 1:
+            return "const ZZ_PROBE: %s = %s;\n" % (ty, it.name), 402
+        if ty == "usize" and variant == 2:
+            return "fn zz_probe(a: [%s]i32)\n{\n}\n" % it.name, 402
+        if ty == "usize" and variant == 3:
+            return "struct ZzProbe\n{\n\tinner: [%s]i32,\n}\n" % it.name, 402
+        if ty == "usize" and variant == 4:
+            return "const ZZ_PROBE: [%s]i32 = [1];\n" % it.name, 402
         return "fn zz_probe() -> %s\n{\n\treturn: %s\n}\n" % (ty, it.name), 402
     if it.kind in ("struct", "word"):
+        if variant == 1:
+            return "fn zz_probe() -> usize\n{\n\treturn: |:%s|\n}\n" % it.name, 405
+        if variant == 2:
+            return "struct ZzProbe\n{\n\tinner: %s,\n}\n" % it.name, 405
+        if variant == 3:
+            return "fn zz_probe()\n{\n\tvar s: %s;\n}\n" % it.name, 405
+        if variant == 4:
+            return "fn zz_probe()\n{\n\tvar a: [2]%s;\n}\n" % it.name, 405
         return "fn zz_probe(p: &%s)\n{\n}\n" % it.name, 405
     return None, None
 
